@@ -13,8 +13,8 @@ Definition table_ok (lc : lifecycle) (s : sys) : Prop :=
   | Published => table r = Some (gen r) /\ running r = false /\ s_flush s = []
   | Up => table r = Some (gen r) /\ running r = true /\ s_flush s = []
   | Flushing => table r = Some (gen r) /\ running r = true
-  | Serving | Ended _ | Closed false => table r = Some (gen r) /\ running r = true /\ s_flush s = []
-  | Closed true => (lc_aclose_clears lc = false -> table r = Some (gen r)) /\ running r = true /\ s_flush s = []
+  | Serving | Ended _ => table r = Some (gen r) /\ running r = true /\ s_flush s = []
+  | Closed _ => (lc_aclose_clears lc = false -> table r = Some (gen r)) /\ running r = true /\ s_flush s = []
   | Cleared => (lc_aclose_clears lc = false -> table r = Some (gen r)) /\ running r = false /\ s_flush s = []
   end.
 
@@ -81,9 +81,8 @@ Proof.
       destruct L1 as [Hl|Hl].
       * cbn. rewrite Hl. fin_inv.
       * rewrite Hl in Em. cbn in Em. rewrite Nat.eqb_refl in Em. discriminate Em.
-    + destruct failed0; injection H as <-.
-      * destruct (lc_aclose_clears lc) eqn:Ec; fin_inv.
-      * fin_inv.
+    + injection H as <-.
+      destruct failed0, (lc_graceful_closes lc), (lc_aclose_clears lc) eqn:Ec; fin_inv.
     + injection H as <-. destruct failed0; fin_inv.
     + injection H as <-. destruct (lc_end_clears lc) eqn:Ee; fin_inv.
 Qed.
@@ -120,7 +119,7 @@ Lemma decide_no_raise lc s :
   lc_aclose_clears lc = false -> lc_end_clears lc = true -> Inv lc s -> decide (s_reg s) <> DRaise.
 Proof.
   intros Ha He [T _]. unfold table_ok in T. unfold decide.
-  destruct (s_pc s) as [| | | | | |f|[|]|]; try destruct f;
+  destruct (s_pc s) as [| | | | | |f|f|]; try destruct f;
     repeat match goal with H : _ /\ _ |- _ => destruct H end;
     repeat match goal with H : _ = _ -> table _ = _ |- _ => first [rewrite (H Ha)|rewrite (H He)]; clear H end;
     repeat match goal with H : table _ = _ |- _ => rewrite H; clear H end;
@@ -147,7 +146,7 @@ Proof.
       destruct I as [T L]. split; unfold table_ok, live_ok in *; cbn; rewrite E in *; [|exact L].
       destruct T as [T1 T2]. auto.
     + destruct (mem _ _); [discriminate|]. injection H as <-. exact R.
-    + destruct failed0; injection H as <-; [destruct (lc_aclose_clears lc)|]; exact R.
+    + injection H as <-. destruct (_ && _); exact R.
     + injection H as <-. destruct (lc_end_clears lc); exact R.
 Qed.
 
@@ -201,7 +200,7 @@ Proof.
       destruct I as [T L]. split; unfold table_ok, live_ok in *; cbn; rewrite E in *; [|exact L].
       destruct T as [T1 T2]. auto.
     + destruct (mem _ _); [discriminate|]. injection H as <-. exact S.
-    + destruct failed0; injection H as <-; [destruct (lc_aclose_clears lc)|]; exact S.
+    + injection H as <-. destruct (_ && _); exact S.
     + injection H as <-. destruct (lc_end_clears lc); exact S.
 Qed.
 
@@ -291,7 +290,7 @@ Proof.
     + destruct (s_flush s) as [|q rest] eqn:Ef; [injection H as <-; reflexivity|]. injection H as <-.
       rewrite tracked_register. unfold tracked. cbn [s_reg s_flush s_pend s_handed s_raised]. rewrite Ef, cnt_cons. lia.
     + destruct (mem _ _); [discriminate|]. injection H as <-. reflexivity.
-    + destruct failed0; injection H as <-; [destruct (lc_aclose_clears lc)|]; reflexivity.
+    + injection H as <-. destruct (_ && _); reflexivity.
     + injection H as <-. destruct (lc_end_clears lc); reflexivity.
 Qed.
 
